@@ -456,6 +456,23 @@ def check_purge_predicate(prog, r):
             r.ok("%s: retain predicate tests remote_addr and %s" % (m, need.split("::")[-1]))
         else:
             r.fail(prog.name(k), "purge-predicate", "%s does not restrict the purge to (peer address, %s)" % (m, need.split("::")[-1]), "table/src/lib.rs")
+        # the purge does not depend on the import verdict: a stale path that policy rejected is still a stale path of the peer
+        # and must go with the others (the is_filtered test belongs to the accepted-count only)
+        from ..cfg import Renderer as _R
+        for kk in prog.with_closures(k):
+            v_ = view(prog, kk)
+            for b_, t_ in v_.calls(re.compile(r".*Vec::<T, A>::retain")):
+                if "RibEntry" not in t_["f"].get("ga", ""):
+                    continue
+                txt = repr(_R(v_, depth=8, through_names=True).operand(t_["args"][1], 8))
+                for ck in prog.with_closures(k)[1:]:
+                    tail = prog.name(ck).split("::" + m + "::", 1)[-1]
+                    if tail in txt and not any(prog.name(c2).split("::" + m + "::", 1)[-1].startswith(tail + "::") and prog.name(c2).split("::" + m + "::", 1)[-1] in txt for c2 in prog.with_closures(k)[1:]):
+                        if any(t.endswith("RibEntry::is_filtered") for t in fn_tokens(prog, ck, depth=2) if t.startswith("call:")):
+                            r.fail(prog.name(k), "purge-skips-filtered", "%s keeps or drops a peer's stale path depending on is_filtered(): a stale path that import policy rejected survives the "
+                                   "purge with no timer or End-of-RIB left to remove it" % m, v_.loc(b_))
+                        else:
+                            r.ok("%s: the purge predicate does not consult the import verdict" % m)
 
 
 def check_established_reported(prog, r):
